@@ -116,8 +116,13 @@ def TableFollows (f g : Bytes) (parents atoms : List PAtom) (o old : Nat) (delta
 file `f`, whatever atoms the parser returned for it, whatever region `[o, o+old)` is replaced
 by whatever bytes `new`: if the save finishes without an exception, the file has exactly one
 top-level `moov` [and, when `oneMoof`, at most one top-level `moof`], and the side conditions
-`SaveSafe` hold (table atoms long enough, inside the file, outside the replaced region, pairwise
-disjoint), then EVERY stco / co64 / tfhd atom below a top-level moov / moof follows the data. -/
+`SaveSafe` hold (table atoms at least 12 bytes long, with the 8-byte header form, inside the file,
+outside the replaced region, pairwise disjoint and clear of the path atoms' size fields — all
+decidable; the driver evaluates them on every save of the correspondence run), then EVERY stco /
+co64 / tfhd atom below a top-level moov / moof follows the data.  With the 8-byte header form the
+entries the code works on are the entries of the payload as ISO 14496-12 defines them
+(`tblEntries_spec`, `tfhd_spec` in Proofs/Container/Mp4.lean); a table atom written with a 64-bit
+size header is outside the statement (and is in fact mishandled: key `…:wide-table` / `…:wide-tfhd`). -/
 def ChunkOffsetsFollow (oneMoof : Bool) : Prop :=
   ∀ (f : Bytes) (atoms parents : List PAtom) (o old : Nat) (new g : Bytes),
     saveAt f atoms parents o old new = (none, g) →
@@ -133,7 +138,7 @@ Windows that are not `MediaClear` — offsets into the tag region or into a size
 table — are not media and are outside the statement.) -/
 theorem chunk_offsets_follow_partial : ChunkOffsetsFollow true := by
   intro f atoms parents o old new g hs hmoov hmoof hsafe t ht
-  obtain ⟨hsz, hpw, hclear, hin⟩ := hsafe
+  obtain ⟨hsz, hpw, hclear, hin, _⟩ := hsafe
   rw [← visited_eq_allTables atoms hmoov (hmoof rfl)] at ht
   refine ⟨fun hw => ?_, fun hw => ?_⟩
   · obtain ⟨h1, h2⟩ := table_patched f atoms parents o old new g hs hsz hpw t ht hw (hclear t ht) (hin t ht)
